@@ -115,6 +115,8 @@ def expr_may_raise(e):
 
 
 def stmt_may_raise(st):
+    if isinstance(st, ast.withitem):
+        return True
     if isinstance(st, (ast.Pass, ast.Global, ast.Nonlocal, ast.FunctionDef, ast.ClassDef, ast.Break, ast.Continue)):
         return False
     if isinstance(st, (ast.Import, ast.ImportFrom, ast.Assert, ast.Delete)):
@@ -368,7 +370,8 @@ class CFG(object):
             for item in st.items:
                 n = self._new("with_enter", item, w, tries)
                 self._connect(frontier, n.id)
-                self._raising(n, frame)
+                if self._may_raise_stmt(item):
+                    self._raising(n, frame)
                 n.defs = tuple(_names_bound(item.optional_vars))
                 frontier = [(n.id, "n")]
                 w = w + (dump(item.context_expr),)
